@@ -552,6 +552,84 @@ def gen_hsl(out):
 EXTRA.append(gen_hsl)
 
 
+def gen_ident(out):
+    ident_t = src_ast('lesscpy/plib/identifier.py')
+
+    def subp():
+        fn = find_def(ident_t, 'Identifier', 'parse')
+        for n in ast.walk(fn):
+            if isinstance(n, ast.Assign) and isinstance(n.targets[0], ast.Attribute) and n.targets[0].attr == '_subp':
+                return [const(e) for e in n.value.elts]
+        raise ValueError('_subp not found')
+    out.put('subp_names', 'list str', to_coq_strlist, subp)
+
+    def reserved():
+        from lesscpy.lib import reserved as r
+        return sorted([[k, v] for k, v in r.tokens.items()])
+    out.put('reserved_tokens', 'list (str * str)', lambda v: coq_list(['(%s, %s)' % (coq_str(a), coq_str(b)) for a, b in v]), reserved)
+
+
+EXTRA.append(gen_ident)
+
+
+def gen_fmt(out):
+    def fills():
+        from lesscpy.lessc import formatter
+
+        class Stub(object):
+            def fmt(self, fills):
+                return ''
+
+        class P(object):
+            result = [Stub()]
+        rows = []
+        for minify in (False, True):
+            for xminify in (False, True):
+                for tabs in (False, True):
+                    for spaces in range(0, 9):
+                        class Opt(object):
+                            pass
+                        o = Opt()
+                        o.minify, o.xminify, o.tabs, o.spaces = minify, xminify, tabs, spaces
+                        f = formatter.Formatter(o)
+                        f.format(P())
+                        it = f.items
+                        rows.append([[minify, xminify, tabs, spaces], [it['nl'], it['tab'], it['ws'], it['eb']]])
+        return rows
+
+    def b(x):
+        return 'true' if x else 'false'
+    out.put('fills_table', 'list ((bool * bool * bool * nat) * (str * str * str * str))',
+            lambda v: coq_list(['((%s, %s, %s, %d%%nat), (%s, %s, %s, %s))' % (b(k[0]), b(k[1]), b(k[2]), k[3], coq_str(f[0]), coq_str(f[1]), coq_str(f[2]), coq_str(f[3]))
+                                for k, f in v]), fills)
+
+    def compile_defaults():
+        import lesscpy
+        sig = inspect.signature(lesscpy.compile)
+        d = {k: v.default for k, v in sig.parameters.items() if v.default is not inspect.Parameter.empty}
+        return [bool(d['minify']), bool(d['xminify']), bool(d['tabs']), int(d['spaces'])]
+    out.put('compile_defaults', 'bool * bool * bool * nat', lambda v: '(%s, %s, %s, %d%%nat)' % (b(v[0]), b(v[1]), b(v[2]), v[3]), compile_defaults)
+
+    def cli_defaults():
+        comp_t = src_ast('lesscpy/scripts/compiler.py')
+        fn = find_def(comp_t, None, 'run')
+        res = {}
+        for n in ast.walk(fn):
+            if isinstance(n, ast.Call) and isinstance(n.func, ast.Attribute) and n.func.attr == 'add_argument' and n.args:
+                flag = const(n.args[0])
+                kw = {k.arg: k.value for k in n.keywords}
+                if flag in ('-x', '-X', '-t', '-s'):
+                    if 'default' in kw:
+                        res[flag] = const(kw['default'])
+                    elif 'action' in kw and const(kw['action']) == 'store_true':
+                        res[flag] = False
+        return [bool(res['-x']), bool(res['-X']), bool(res['-t']), int(res['-s'])]
+    out.put('cli_defaults', 'bool * bool * bool * nat', lambda v: '(%s, %s, %s, %d%%nat)' % (b(v[0]), b(v[1]), b(v[2]), v[3]), cli_defaults)
+
+
+EXTRA.append(gen_fmt)
+
+
 def render(out):
     """-> {relative file name: text}: one Gen/P<Group>.v per group plus Gen/Params.v re-exporting all"""
     head = ['(* GENERATED by harness/gen_params.py from %s — do not edit, do not commit. *)' % REPO,
